@@ -847,7 +847,40 @@ def run(ctx):
             dsc = case.describe(); dsc.pop("tree_spec", None)
             samples.append({"case": dsc, "order": res[-1][0], "impl": res[-1][1][:300]})
 
-    # 0. the witness of D16, replayed on the real code
+    # 0a. corpus of minimised past disagreements (each: tree spec + case + orders), harness level and tool level
+    cdir = vlib.CORPUS / "C11"
+    ncorpus = 0
+    if cdir.exists():
+        for k, cf in enumerate(sorted(cdir.glob("*.json"))):
+            body = json.loads(cf.read_text())
+            ctree = rebuild_tree(ctx, body["case"]["tree_spec"], "corpus%d" % k)
+            ccase = Case.from_description(ctx, body["case"], ctree, 1000 + k)
+            cfacts = tree_facts(ctree.root)
+            res, crash = run_case(ctx, harness, ccase, body["orders"])
+            if crash:
+                ctx.violation("crash:corpus:%s" % cf.name, "real scan path aborted on corpus entry %s: %s" % (cf.name, crash[1][-300:]),
+                              {"case": ccase.describe(), "orders": body["orders"], "stderr": crash[1]})
+            else:
+                classify(ctx, ccase, res, cfacts, "corpus:" + cf.stem, counters)
+                for x in res:
+                    if nontrivial(x[1]):
+                        distinct.add(vlib.sha(x[1] + repr(sorted(x[2].items()))))
+            if ccase.kind == "packdir":
+                cmd = ["-q", "-f", "-b", str(BLK), "-d", "mtime=0", "--pack-dir", ctree.root.decode("utf-8", "surrogateescape")]
+                if ccase.flags & F_NO_HL:
+                    cmd.append("-H")
+                res, crash = run_tool_case(ctx, tools, ccase, cmd, body["orders"], False)
+                if crash:
+                    ctx.violation("crash:tool:corpus:%s" % cf.name, "gensquashfs aborted on corpus entry %s" % cf.name,
+                                  {"case": ccase.describe(), "cmdline": cmd, "orders": body["orders"], "stderr": str(crash[1])})
+                else:
+                    classify_tool(ctx, ccase, cmd, res, cfacts, counters)
+            umount_all()
+            shutil.rmtree(ctree.root, ignore_errors=True)
+            ncorpus += 1
+    hist["corpus_entries"] = ncorpus
+
+    # 0b. the witness of D16, replayed on the real code
     wt = witness_tree(ctx, 0)
     one(Case("packdir", wt, {"uid": 0, "gid": 0, "mtime": 0, "mode": 0o755}, DEFAULT_FLAGS, {"uid": 0, "gid": 0, "mtime": 0}),
         tree_facts(wt.root), "witness")
